@@ -2,5 +2,5 @@ SPECIFICATION Spec
 CONSTANTS
   MaxStr = 2
   Deep = FALSE
-INVARIANTS RefRoundTrip OrderMatters TypeMatters LeafMatters Eq11Refl EncoderAudit ReaderAudit
+INVARIANTS RefRoundTrip ReservedCollides OrderMatters TypeMatters LeafMatters Eq11Refl EncoderAudit ReaderAudit
 CHECK_DEADLOCK FALSE
